@@ -392,6 +392,19 @@ type vRow struct {
 	NextOut uint64   `json:"nextout,omitempty"`
 	Res     *vEdgeJ  `json:"res,omitempty"`
 	Cands   []vEdgeJ `json:"cands,omitempty"`
+
+	// blinded rows (kind broute | bnoroute), see verif_blinded_test.go
+	Blinded   []*vBPay    `json:"blinded,omitempty"`   // the blinded payments as given
+	Nums      int         `json:"nums,omitempty"`      // node index of the NUMS dummy target
+	Total     uint64      `json:"total,omitempty"`     // finalHopParams.totalAmt
+	SelfIntro bool        `json:"selfintro,omitempty"` // NewRouteRequest would answer ErrSelfIntro
+	BSizes    [][3]uint64 `json:"bsizes,omitempty"`    // from, to, BlindedEdge.IntermediatePayloadSize
+	HopEnc    [][3]int    `json:"hopenc,omitempty"`    // per hop: payment, hop index, len of EncryptedData (-1: none)
+	HopBP     []int       `json:"hopbp,omitempty"`     // per hop: payment whose blinding point it carries (-1: none)
+	HopTotal  []uint64    `json:"hoptotal,omitempty"`  // per hop: TotalAmtMsat
+	HopMPP    []bool      `json:"hopmpp,omitempty"`    // per hop: MPP record present
+	Session   bool        `json:"session,omitempty"`   // restrictions built like paymentSession.RequestRoute
+	Stream    string      `json:"stream,omitempty"`    // "" base | hint | blinded | directed
 }
 
 func (c *vCase) row(ci int, variant string) *vRow {
@@ -1162,6 +1175,12 @@ func TestVerifRoute(t *testing.T) {
 	if only >= 0 {
 		ncases = only + 1
 	}
+	// replay of a case of the additional-edge streams only
+	onlyAdd := vEnvInt("VERIF_ONLY_H", -1) >= 0 || vEnvInt("VERIF_ONLY_B", -1) >= 0 ||
+		vEnvInt("VERIF_ONLY_D", -1) >= 0
+	if onlyAdd {
+		ncases = 0
+	}
 
 	for ci := 0; ci < ncases; ci++ {
 		if only >= 0 && ci != only {
@@ -1221,6 +1240,14 @@ func TestVerifRoute(t *testing.T) {
 	}
 	if onlyGE >= 0 {
 		ng = onlyGE + 1
+	}
+	if onlyAdd {
+		ng = 0
+	}
+	// additional edges: multi-hop / parallel route hints and blinded payment
+	// paths (verif_blinded_test.go)
+	if (only < 0 && onlyGE < 0 || onlyAdd) && !vAdditionalStream(out) {
+		return
 	}
 	gr := vNewRng(vSeed() ^ 0x6765746564676500)
 	for i := 0; i < ng; i++ {
